@@ -1,0 +1,74 @@
+//go:build verif
+
+// Add-only hook for the verification harness (/verif): exposes the shape of the expression tree
+// that parseExpr + sortPriority build, so that the Lean model of the parser can be compared with
+// it node by node.  Nothing here is reachable from a normal build.
+
+package tagexpr
+
+import "strings"
+
+// VerifExprShape parses expr exactly as the struct-tag compiler does (parseExpr, which ends with
+// sortPriority) and renders the resulting tree fully parenthesised.
+//
+//	operator node   (L<op>R)
+//	nil operand     ~
+//	group           G[sub]      func      F[arg;arg;…]      regexp   R[sub]
+//	literals        n (number) s (string) b (bool) z (nil)  selector $  variable v  range-kv k
+func VerifExprShape(expr string) (shape string, err error) {
+	p, err := parseExpr(expr)
+	if err != nil {
+		return "", err
+	}
+	var b strings.Builder
+	verifDump(&b, p.expr)
+	return b.String(), nil
+}
+
+func verifDump(b *strings.Builder, e ExprNode) {
+	if e == nil {
+		b.WriteString("~")
+		return
+	}
+	switch t := e.(type) {
+	case *groupExprNode:
+		b.WriteString("G[")
+		verifDump(b, t.rightOperand)
+		b.WriteString("]")
+	case *funcExprNode:
+		b.WriteString("F[")
+		for i, a := range t.args {
+			if i > 0 {
+				b.WriteString(";")
+			}
+			verifDump(b, a)
+		}
+		b.WriteString("]")
+	case *regexpFuncExprNode:
+		b.WriteString("R[")
+		verifDump(b, t.rightOperand)
+		b.WriteString("]")
+	case *digitalExprNode:
+		b.WriteString("n")
+	case *stringExprNode:
+		b.WriteString("s")
+	case *boolExprNode:
+		b.WriteString("b")
+	case *nilExprNode:
+		b.WriteString("z")
+	case *selectorExprNode:
+		b.WriteString("$")
+	case *variableExprNode:
+		b.WriteString("v")
+	case *rangeKvExprNode:
+		b.WriteString("k")
+	case *sprintfFuncExprNode, *rangeFuncExprNode:
+		b.WriteString("U")
+	default:
+		b.WriteString("(")
+		verifDump(b, e.LeftOperand())
+		b.WriteString(e.String())
+		verifDump(b, e.RightOperand())
+		b.WriteString(")")
+	}
+}
